@@ -7,6 +7,8 @@ HERE = os.path.dirname(os.path.dirname(os.path.abspath(__file__)))
 BASELINE = "cd /repo && /venv/bin/python -m pytest -ra -q -p no:cacheprovider --timeout=900 --continue-on-collection-errors tests"
 SETUP = ("/venv/bin/python -c 'import hypothesis' 2>/dev/null || "
          "/venv/bin/pip install --no-index --find-links /opt/veriftools/wheels hypothesis; "
+         "/venv/bin/python -c 'import sys; sys.path.insert(0, \"/verif/.deps\"); import atheris' 2>/dev/null || "
+         "/venv/bin/pip install -q --no-index --find-links /opt/veriftools/wheels --target /verif/.deps atheris || true; "
          "/venv/bin/python -c 'import hypothesis, numpy, sympy, kingdon; print(hypothesis.__version__, kingdon.__file__)'")
 
 
